@@ -1,29 +1,125 @@
-// Engine K harnesses for multiboot2-common/src/boxed.rs (C16).
+// Engine K harnesses for multiboot2-common/src/boxed.rs (C16: new_boxed, clone_dyn).
+// Test types: test_utils::{DummyTestHeader (u32 typ, u32 size; 8 bytes, align 8),
+// DummyDstTag (header + [u8])}.
 use super::*;
-use crate::test_utils::{DummyDstTag, DummyTestHeader};
+use crate::test_utils::{AlignedBytes, DummyDstTag, DummyTestHeader};
+use crate::DynSizedStructure;
 
 fn round8(n: usize) -> usize {
     (n + 7) / 8 * 8
 }
+fn le32(b: &[u8], o: usize) -> u32 {
+    u32::from_le_bytes([b[o], b[o + 1], b[o + 2], b[o + 3]])
+}
 
+// ---- C16 new_boxed: k = 0..=3 content slices (k symbolic), each of symbolic
+// length 0..=5 with symbolic bytes (total 0..=15: every padding residue, empty
+// slices anywhere), any header type value and any stale size value in the
+// header passed in.  Dropping the Box at the end of the harness is checked by
+// Kani's dealloc model (same layout / no double free).
 #[kani::proof]
-#[kani::unwind(11)]
-pub fn k_new_boxed_exp1() {
+#[kani::unwind(8)]
+pub fn k_new_boxed_layout() {
+    let (a0, a1, a2): ([u8; 5], [u8; 5], [u8; 5]) = kani::any();
+    let (l0, l1, l2, k): (usize, usize, usize, usize) = kani::any();
+    kani::assume(l0 <= 5 && l1 <= 5 && l2 <= 5 && k <= 3);
+    let all: [&[u8]; 3] = [&a0[..l0], &a1[..l1], &a2[..l2]];
+    let typ: u32 = kani::any();
+    let stale: u32 = kani::any();
+    let tag = new_boxed::<DummyDstTag>(DummyTestHeader::new(typ, stale), &all[..k]);
+    let n0 = if k >= 1 { l0 } else { 0 };
+    let n1 = if k >= 2 { l1 } else { 0 };
+    let n2 = if k >= 3 { l2 } else { 0 };
+    let total = 8 + n0 + n1 + n2;
+    // header: other fields kept, size patched
+    assert!(tag.header().typ() == typ);
+    assert!(tag.header().size() as usize == total);
+    assert!(tag.payload().len() == total - 8);
+    // allocation: 8-aligned, size_of_val == total rounded up to 8
+    assert!(mem::size_of_val(&*tag) == round8(total));
+    assert!(mem::align_of_val(&*tag) == 8);
+    let ab = tag.as_bytes();
+    let img: &[u8] = *ab;
+    assert!(img.len() == round8(total));
+    assert!(img.as_ptr() as usize % 8 == 0);
+    assert!(img.as_ptr() == ptr::addr_of!(*tag).cast::<u8>());
+    // bytes == header || slices without gaps
+    assert!(le32(img, 0) == typ);
+    assert!(le32(img, 4) as usize == total);
+    let mut i = 0;
+    while i < n0 {
+        assert!(img[8 + i] == a0[i]);
+        i += 1;
+    }
+    let mut i = 0;
+    while i < n1 {
+        assert!(img[8 + n0 + i] == a1[i]);
+        i += 1;
+    }
+    let mut i = 0;
+    while i < n2 {
+        assert!(img[8 + n0 + n1 + i] == a2[i]);
+        i += 1;
+    }
+    drop(tag);
+    kani::cover!(k == 3 && l0 == 0 && l1 == 5 && l2 == 2);
+    kani::cover!(k == 3 && total == 23);
+    kani::cover!(k == 0);
+}
+
+// ---- C16 clone_dyn: original = typed view of a byte region with declared
+// size 8..=17 (content length 0..=9: every padding residue), all 24 region
+// bytes symbolic (so padding bytes carry arbitrary markers): the clone has the
+// SAME declared size, the same bytes up to that size, and the rounded
+// in-memory size; dropping it is checked by Kani's dealloc model.
+#[kani::proof]
+#[kani::unwind(20)]
+pub fn k_clone_dyn_identity() {
+    let bytes = AlignedBytes(kani::any::<[u8; 24]>());
+    let b = &bytes.0;
+    let size = le32(b, 4) as usize;
+    kani::assume(size >= 8 && size <= 17);
+    let orig = DynSizedStructure::<DummyTestHeader>::ref_from_slice(&b[..round8(size)])
+        .unwrap()
+        .cast::<DummyDstTag>();
+    let clone = clone_dyn(orig);
+    assert!(clone.header().size() as usize == size);
+    assert!(clone.header().typ() == le32(b, 0));
+    assert!(clone.payload().len() == size - 8);
+    assert!(mem::size_of_val(&*clone) == round8(size));
+    let ab = clone.as_bytes();
+    let img: &[u8] = *ab;
+    assert!(img.len() == round8(size));
+    let mut i = 0;
+    while i < size {
+        assert!(img[i] == b[i]);
+        i += 1;
+    }
+    assert!(*clone == *orig);
+    drop(clone);
+    kani::cover!(size == 13);
+    kani::cover!(size == 16);
+    kani::cover!(size == 8);
+}
+
+// ---- C16 clone_dyn of a constructed (boxed) tag: content length 0..=9.
+#[kani::proof]
+#[kani::unwind(12)]
+pub fn k_clone_dyn_of_boxed() {
     let raw: [u8; 9] = kani::any();
     let len: usize = kani::any();
     kani::assume(len <= 9);
     let typ: u32 = kani::any();
-    let tag = new_boxed::<DummyDstTag>(DummyTestHeader::new(typ, 0), &[&raw[..len]]);
-    assert!(tag.header().size() as usize == 8 + len);
-    assert!(mem::size_of_val(&*tag) == round8(8 + len));
-}
-
-#[kani::proof]
-#[kani::unwind(11)]
-pub fn k_new_boxed_exp2() {
-    let raw: [u8; 9] = kani::any();
-    let typ: u32 = kani::any();
-    let tag = new_boxed::<DummyDstTag>(DummyTestHeader::new(typ, 0), &[&raw[..5]]);
-    assert!(tag.header().size() as usize == 8 + 5);
-    assert!(mem::size_of_val(&*tag) == round8(8 + 5));
+    let orig = new_boxed::<DummyDstTag>(DummyTestHeader::new(typ, 0), &[&raw[..len]]);
+    let clone = clone_dyn(&*orig);
+    assert!(clone.header().size() as usize == 8 + len);
+    assert!(clone.header().typ() == typ);
+    assert!(clone.payload().len() == len);
+    let mut i = 0;
+    while i < len {
+        assert!(clone.payload()[i] == raw[i]);
+        i += 1;
+    }
+    assert!(mem::size_of_val(&*clone) == round8(8 + len));
+    kani::cover!(len == 5);
 }
